@@ -272,6 +272,11 @@ def waitOp (σ : DbModel) (db : Database) (tx : Txn) (op : Operation) : Except S
         | none => .ok ({}, tx1)
         | some e => .error e
 
+/-- `Transaction.Select`'s projection: with a non-empty `columns` only the named
+    columns of a result row are kept -/
+def projectRow (columns : List String) (r : OvsRow) : OvsRow :=
+  if columns.isEmpty then r else r.filter (fun p => columns.contains p.1)
+
 /-- one operation of the per-operation loop: result, new transaction state and
     the step's updates -/
 def execOp (σ : DbModel) (db : Database) (tx : Txn) (op : Operation) :
@@ -293,7 +298,7 @@ def execOp (σ : DbModel) (db : Database) (tx : Txn) (op : Operation) :
       | .ok (rows, tx1) =>
         match rows.mapM (fun p => newRow ts ⟨p.1, p.2⟩) with
         | .error e => .error e
-        | .ok out => .ok ({ rows := out }, tx1, [])
+        | .ok out => .ok ({ rows := out.map (projectRow op.columns) }, tx1, [])
   else if op.op = "update" then rowOp σ db tx op (.update op.row) false
   else if op.op = "mutate" then rowOp σ db tx op (.mutate op.mutations) false
   else if op.op = "delete" then rowOp σ db tx op .delete true
